@@ -127,6 +127,8 @@ def _env():
         async def generate_async(self, messages=None, **kwargs):
             snap = json.loads(json.dumps(messages))
             e.calls.append(snap)
+            if snap and isinstance(snap[-1], dict) and snap[-1].get("content") == BOOM:
+                raise RuntimeError("scripted generation failure")
             return _reply_for(snap)
 
     api.LLMRails = StubRails
@@ -336,6 +338,9 @@ CONTENT = ["hi", "hello", "", "a", "b", "ok", "what can you do?", "é你", 'q"uo
 ROLES = ["user", "user", "user", "assistant", "system", "tool"]
 
 
+BOOM = "@@BOOM@@"  # a turn whose last new message has this content makes the (stubbed) generation raise
+
+
 @st.composite
 def _message(draw):
     m = {"role": draw(st.sampled_from(ROLES)), "content": draw(st.one_of(st.sampled_from(CONTENT), st.sampled_from(CONTENT), st.text(max_size=8)))}
@@ -354,7 +359,11 @@ def _threads_case(draw):
         cfg = draw(st.sampled_from(["cfgA", "cfgA", "cfgB", ["cfgA", "cfgB"]]))
         msgs = draw(st.lists(_message(), min_size=1, max_size=3))
         ctx = draw(st.sampled_from([{"user_name": "v"}, {"a": 1, "b": [2]}])) if draw(st.integers(0, 11)) == 0 else None
-        ops.append({"tid": tid, "cfg": cfg, "messages": msgs, "context": ctx})
+        op = {"tid": tid, "cfg": cfg, "messages": msgs, "context": ctx}
+        if tid is not None and ctx is None and draw(st.integers(0, 6)) == 0:
+            op["messages"] = msgs + [{"role": "user", "content": BOOM}]
+            op["fail"] = True
+        ops.append(op)
     return {"part": "threads", "tids": tids, "ops": ops}
 
 
@@ -381,6 +390,14 @@ def enumerate_cases(tier):
     for tids in (["t" * 16, "t" * 17, "T" * 16], ["x" * 255, "x" * 254, "thread-abcdefghij"]):
         ops = [{"tid": i % 3, "cfg": "cfgA" if i % 2 else "cfgB", "messages": m("hi"), "context": None} for i in range(7)]
         yield {"part": "threads", "tids": tids, "ops": ops}
+        ops2 = []
+        for i in range(8):
+            o = {"tid": i % 2, "cfg": "cfgA", "messages": m(f"m{i}"), "context": None}
+            if i in (2, 5):
+                o["messages"] = o["messages"] + [{"role": "user", "content": BOOM}]
+                o["fail"] = True
+            ops2.append(o)
+        yield {"part": "threads", "tids": tids, "ops": ops2}
 
 
 # ---------------------------------------------------------------------------------------------
@@ -525,6 +542,7 @@ def _threads_run(e, case):
     model = {t: [] for t in tids}
     order = []
     n_thread_reqs = 0
+    n_failed = 0
     probes = [{"tid": i, "cfg": "cfgA", "messages": [{"role": "user", "content": f"probe-{i}"}], "context": None, "probe": True} for i in range(3)]
     for n, op in enumerate(list(case["ops"]) + probes):
         tid = None if op["tid"] is None else tids[op["tid"]]
@@ -540,6 +558,18 @@ def _threads_run(e, case):
         status, js, paths, calls, touched = _post(e, body)
         what = f"step #{n} thread={tid!r:.40} cfg={op['cfg']!r} new={op['messages']!r}" + (f" context={op['context']!r}" if op.get("context") else "")
         _check_confinement(e, what, paths, touched)
+        if op.get("fail"):
+            # generation failed: nothing is said about the reply or about what is stored for THIS thread, but the turn
+            # must have been attempted with stored thread + new messages, other threads must be untouched, and the next
+            # turn must again start from whatever the datastore now holds for this thread
+            n_failed += 1
+            if len(calls) == 1 and calls[0] != model[tid] + op["messages"]:
+                raise Violation("wrong-history-used", f"{what} (failing turn): rails received {json.dumps(calls[0])[:300]} but stored thread + new messages is {json.dumps(model[tid] + op['messages'])[:300]}")
+            model[tid] = json.loads(e.store.data.get("thread-" + tid, "[]"))
+            got, exp = _stored(e), _model_values(model)
+            if got != exp:
+                raise Violation("wrong-thread-store", f"{what} (failing turn): another thread changed: datastore {json.dumps(got)[:300]} vs model {json.dumps(exp)[:300]}")
+            continue
         if status != 200 or len(calls) != 1 or not isinstance(js, dict):
             raise Violation("turn-failed", f"{what}: HTTP {status} {str(js)[:200]}, rails calls {len(calls)}")
         received = calls[0]
@@ -577,6 +607,8 @@ def _threads_run(e, case):
         labels.append("no-thread-request")
     if any(o.get("context") for o in case["ops"]):
         labels.append("context-request")
+    if n_failed:
+        labels.append("failing-turn")
     if any(isinstance(o["cfg"], list) for o in case["ops"]):
         labels.append("config_ids-on-thread")
     pre = {t[:16] for t in tids}
